@@ -23,6 +23,8 @@ CHECKS = {
          "Lean 4 proof (table obligations + peek/pop lemmas) + respelling oracle and lex correspondence"),
  "C13": ("4.13", "Lean theorems about the pattern CheckHeader compiles (captured and translated to a sequence of atoms on every run; obligation: it has exactly the eleven-line shape) and about the three-flag state machine of CheckHeader.run: every well-formed standard header — any file name, login, e-mail, stamps, art — matches the pattern and the file never gets INVALID_HEADER whatever follows; INVALID_HEADER is emitted at most once for every statement sequence; a file whose first statement is not an own-line block comment gets it exactly once. Mutations inside the header are decided by the oracle and the regex correspondence (partial)",
          "Lean 4 proof (explicit decomposition against the translated pattern; fold invariant of the state machine) + regex/state-machine correspondences"),
+ "C14": ("4.14", "Lean theorems about the decision logic of CheckPreprocessorProtection.run (Model/Guard.lean) for every header base name over [a-z0-9_.] and every macro symbol: the guard symbol is the upper-cased name with dots replaced; .c files are never checked; the correct guard is accepted; a different symbol gives HEADER_PROT_NAME / _UPPER, a missing #define _NODEF, a second outermost #ifndef _MULT, code before / after _ALL / _ALL_AF. What the rule reads from the context (indent, macro table, history) is maintained by unported rules and is observed: every real call of the rule is replayed through the model (partial)",
+         "Lean 4 proof (case analysis of the decision function, universally quantified symbols) + rule-snapshot correspondence"),
  "C15": ("4.15", "Lean theorems about the work-list loop of main over a file-system model: when every argument exists the selection is exactly the named .c/.h files in order followed by the non-hidden *.c/*.h regular files below each named directory, once per mention; a missing path aborts with nothing analysed; no argument = the cwd tree; other suffixes contribute nothing; tied to __main__.py by the select correspondence on generated trees and an independent os.walk oracle; --use-gitignore compared against git's own answers",
          "Lean 4 proof (fold invariant over the argument list) + select correspondence"),
  "C16": ("4.16", "Lean theorems: in the model of main's tail the humanized and the JSON run report the same files, verdicts and diagnostics in the same order with the same exit status for every list of analysed files (format_independent, from C04/C08); the regenerated argparse table and the list of `args` attributes main reads are the ones the model accounts for; the modules reading `.debug` are the known ones. That `debug`/-R do not change diagnostics, -R CheckDefine removes only #define-value diagnostics and inline content equals stored content is decided by the option oracle over all option combinations (partial)",
